@@ -36,6 +36,16 @@ func (g *forGen) countExpr(ctrs []string, max int) []tok {
 		return []tok{num(v)}
 	case k == 4 && len(ctrs) > 0:
 		return []tok{sym(ctrs[r.Intn(len(ctrs))])}
+	case k == 5 && r.Intn(2) == 0:
+		// a predefined name in a count: MAXLENGTH is 400, MINDISTANCE 100, MAXPROCESSES 64 in these programs
+		switch r.Intn(3) {
+		case 0:
+			return []tok{sym("MAXLENGTH"), op("-"), num(400 - v)}
+		case 1:
+			return []tok{num(v), op("+"), sym("MINDISTANCE"), op("-"), num(100)}
+		default:
+			return []tok{sym("MAXPROCESSES"), op("-"), num(64 - v)}
+		}
 	case k == 5:
 		a := r.Intn(v + 1)
 		return []tok{num(a), op("+"), num(v - a)}
@@ -113,7 +123,7 @@ func (g *forGen) block(ctrs []string, d int, mult int) (item, bool) {
 	}
 	nb := 1 + r.Intn(3)
 	for i := 0; i < nb; i++ {
-		if d < 3 && (willNest || r.Intn(6) == 0) && g.total+mult*worst < 40 && !(i == 0 && len(it.Labels) > 0) {
+		if d < 3 && (willNest || r.Intn(6) == 0) && g.total+mult*worst < 40 {
 			b, ok := g.block(inner, d+1, mult*worst)
 			if ok {
 				it.Body = append(it.Body, b)
@@ -126,10 +136,6 @@ func (g *forGen) block(ctrs []string, d int, mult int) (item, bool) {
 		}
 		it.Body = append(it.Body, g.ins(inner))
 		g.labels = saved
-	}
-	// the block label must refer to an emitted instruction: make sure the first body item is an instruction
-	if len(it.Labels) > 0 && it.Body[0].T != "ins" {
-		it.Labels = nil
 	}
 	return it, true
 }
@@ -193,10 +199,23 @@ func genForProgram(r *rand.Rand) prog {
 			items = append(items, it)
 		} else if g.total < 36 {
 			b, _ := g.block(nil, 1, 1)
+			if len(b.Labels) > 0 && r.Intn(3) == 0 {
+				// a reference to the block label from before the block
+				items = append(items, item{T: "ins", Op: "JMP", A: []tok{sym(b.Labels[0])}})
+			}
 			items = append(items, b)
+			if len(b.Labels) > 0 {
+				// ... and from after it: the label is an ordinary label of the first instruction the block emits
+				g.labels = append(g.labels, b.Labels...)
+				if r.Intn(2) == 0 {
+					items = append(items, item{T: "ins", Op: "SPL", A: []tok{sym(b.Labels[0])}, B: []tok{num(r.Intn(9))}, HasB: true})
+				}
+			}
 		}
 	}
-	items = append(items, item{T: "ins", Op: "DAT", A: []tok{num(0)}, HasB: false})
+	if r.Intn(4) != 0 {
+		items = append(items, item{T: "ins", Op: "DAT", A: []tok{num(0)}, HasB: false})
+	}
 	p.Items = items
 	return p
 }
@@ -287,11 +306,16 @@ func unrollManual(items []item, equs map[string]int) ([]item, bool) {
 			emitted = append(emitted, u...)
 		}
 		if len(it.Labels) > 0 {
+			attached := false
 			for k := range emitted {
 				if emitted[k].T == "ins" {
 					emitted[k].Labels = append(append([]string{}, it.Labels...), emitted[k].Labels...)
+					attached = true
 					break
 				}
+			}
+			if !attached {
+				return nil, false // a labelled block that emits nothing: the transformation is not defined for it
 			}
 		}
 		out = append(out, emitted...)
@@ -320,7 +344,7 @@ func cmdForAsm(args []string) {
 		}
 		var res, texts []string
 		for v := 0; v < 2; v++ {
-			o := &renderOpts{r: r, plain: v == 0}
+			o := &renderOpts{r: r, plain: v == 0, rich: true}
 			t := render(p, o)
 			texts = append(texts, t)
 			res = append(res, compileResult(t, cfg))
